@@ -256,15 +256,24 @@ func enumSame(lit string, it ref.RV) bool {
 // C02's and C16's business).
 var formatTable = map[string]map[string]verdict{
 	"email": {"a@b.cc": accept, "john.doe@example.com": accept, "a+tag@b.cc": accept, "ab": reject, "": reject, "a b": reject,
-		"<a@b.cc>": reject, "Bob <a@b.cc>": reject, " a@b.cc": reject, "a@b.cc ": reject, "a@": reject, "@b.cc": reject, "a@b@c.cc": reject, "a@b": noClaim},
-	"uri": {"http://x.y/z": accept, "https://example.com": accept, "ftp://x.y/z?q=1#f": accept, "ab": reject, "": reject, "http://x y": reject, "mailto:a@b.cc": noClaim, "//x.y": noClaim},
+		"<a@b.cc>": reject, "Bob <a@b.cc>": reject, " a@b.cc": reject, "a@b.cc ": reject, "a@": reject, "@b.cc": reject, "a@b@c.cc": reject, "a@b": noClaim,
+		// blanks other than a space, a display name written as a trailing comment
+		"a@b.cc\t": reject, "\ta@b.cc": reject, "a@b.cc\n": reject, "a@b.cc (Bob)": reject, "Bob <a@b.cc>\t": reject},
+	"uri": {"http://x.y/z": accept, "https://example.com": accept, "ftp://x.y/z?q=1#f": accept, "ab": reject, "": reject, "http://x y": reject, "mailto:a@b.cc": noClaim, "//x.y": noClaim,
+		// RFC 3986: a URI has a scheme (a path alone is a relative reference), may end in a fragment, holds no blanks
+		"/foo": reject, "*": reject, "http://a/b c": reject, "http://a/b\tc": reject, "http://example.org#top": accept, "http://example.org/#top": accept, "http://example.org?q=1": accept, "urn:isbn:0451450523": accept},
 	"uuid": {"550e8400-e29b-41d4-a716-446655440000": accept, "550E8400-E29B-41D4-A716-446655440000": accept, "ab": reject, "550e8400-e29b-41d4-a716-44665544000": reject, "": reject,
 		"550e8400-e29b-41d4-a716_446655440000": reject, "550e8400-e29b-41d4-a716-44665544000g": reject, "g50e8400-e29b-41d4-a716-446655440000": reject,
 		"550e8400e29b41d4a716446655440g00": reject, "urx:uuid:550e8400-e29b-41d4-a716-446655440000": reject, "{550e8400-e29b-41d4-a716-446655440000x": reject, "x550e8400-e29b-41d4-a716-446655440000}": reject,
 		"urn:uuid:550e8400-e29b-41d4-a716-446655440000": noClaim, "URN:UUID:550e8400-e29b-41d4-a716-446655440000": noClaim, "{550e8400-e29b-41d4-a716-446655440000}": noClaim, "550e8400e29b41d4a716446655440000": noClaim},
 	"date": {"2021-01-02": accept, "2020-02-29": accept, "2021-02-30": reject, "2021-1-2": reject, "ab": reject, "": reject, "2021-13-01": reject, "2021-00-10": reject, "2021-01-02 ": reject, "2021-02-29": reject, "2021/01/02": reject},
 	"datetime": {"2021-01-02T07:23:12+03:00": accept, "2021-01-02T07:23:12Z": accept, "2021-01-02T07:23:12.123Z": accept, "2021-01-02": reject, "ab": reject, "": reject,
-		"2021-01-02T07:23:12": reject, "2021-01-02T25:00:00Z": reject, "2021-01-02T07:23:12+0300": reject, "2021-02-30T07:23:12Z": reject, "2021-01-02 07:23:12Z": noClaim},
+		"2021-01-02T07:23:12": reject, "2021-01-02T25:00:00Z": reject, "2021-01-02T07:23:12+0300": reject, "2021-02-30T07:23:12Z": reject, "2021-01-02 07:23:12Z": noClaim,
+		// RFC 3339 section 5.6: any number of fraction digits, numeric zero offsets, two-digit fields, offsets within 23:59
+		"2021-01-08T12:50:45.000Z": accept, "2021-01-08T12:50:45.120Z": accept, "2021-01-08T12:50:45.10+06:00": accept, "2021-01-08T12:50:45+00:00": accept, "2021-01-08T12:50:45-00:00": accept,
+		"2021-01-08T12:50:45.123456789-11:30": accept, "2021-01-08T00:00:00Z": accept, "2021-01-08T23:59:59Z": accept,
+		"2021-01-08T3:11:44Z": reject, "2021-01-08T23:11:44,123Z": reject, "2021-01-08T23:11:44+24:00": reject, "2021-01-08T23:11:44+23:60": reject, "2021-01-08T23:60:44Z": reject, "2021-01-08T23:11:4Z": reject,
+		"1990-12-31T23:59:60Z": noClaim, "2021-01-08t01:02:03z": noClaim},
 }
 
 func formatVerdict(t, s string) verdict {
@@ -279,7 +288,7 @@ func formatVerdict(t, s string) verdict {
 // c01DeepPositions (thorough tier): the rule sits one level further inside a registered type.
 var c01DeepPositions = []string{"property-of-type", "item-of-type", "type-rule-in-type", "or-types-in-item", "or-rulesets-in-type"}
 
-var c01Positions = []string{"root", "property", "item", "type-shortcut", "type-rule", "or-types", "or-diamond", "or-rulesets", "type-of-type", "or-rulesets+other-inline-or"}
+var c01Positions = []string{"root", "property", "item", "type-shortcut", "type-rule", "or-types", "or-diamond", "or-rulesets", "type-of-type", "or-rulesets+other-inline-or", "type-rule-to-or-rulesets"}
 
 func ann(rules []string) string {
 	if len(rules) == 0 {
@@ -363,6 +372,21 @@ func place(t tv, pos string) (*project, verdict) {
 			v = accept
 		}
 		return &project{Root: t.Lit + ` // {or: [` + rs + `, {type: "boolean"}]}`}, v
+	case "type-rule-to-or-rulesets":
+		// the referenced type's own example carries the inline alternatives: the value
+		// that refers to the type is judged by them, not the type's example
+		rs := ruleSetFor(tv{Lit: t.Witness, Rules: t.Rules, Witness: t.Witness})
+		if rs == "" {
+			return nil, noClaim
+		}
+		v := self
+		if litKind(t.Lit) == "boolean" {
+			v = accept
+		}
+		if c, ok := ruleValue(t.Rules, "const"); ok && c == "true" && t.Lit != t.Witness && litKind(t.Lit) != "boolean" {
+			v = reject
+		}
+		return &project{Root: t.Lit + ` // {type: "@t"}`, Types: map[string]string{"@t": t.Witness + ` // {or: [` + rs + `, {type: "boolean"}]}`}}, needWitness(v)
 	case "property-of-type":
 		return &project{Root: "@t", Types: map[string]string{"@t": "{\n\t\"k\": " + node + "\n}"}}, self
 	case "item-of-type":
@@ -741,11 +765,74 @@ func c01Arrays(w *core.W, idx *int64) {
 	}
 }
 
+// c01InlineVsNamed: an `or` alternative written inline as a rule-set and the same rule-set
+// registered as a named type are two spellings of one alternative: the verdict for a value
+// must not depend on the spelling (no hand-written expectation; this also covers the
+// literals the three-valued reference makes no claim about, e.g. an integer against a
+// float or decimal alternative).
+func c01InlineVsNamed(w *core.W, idx *int64) {
+	type alt struct{ rules, witness string }
+	alts := []alt{
+		{`type: "float"`, "1.5"}, {`type: "integer"`, "1"}, {`type: "decimal", precision: 2`, "1.5"}, {`type: "decimal", precision: 1, max: 100`, "1.5"},
+		{`type: "float", min: 1`, "1.5"}, {`type: "integer", min: 1000`, "2000"}, {`type: "float", min: 1000`, "2000.5"}, {`type: "string"`, `"s"`}, {`type: "boolean"`, "true"},
+		{`type: "string", minLength: 3`, `"abc"`}, {`type: "null"`, "null"}, {`type: "email"`, `"a@b.cc"`}, {`type: "any"`, "1"}, {`type: "enum", enum: [1, "x", 2.5]`, "1"},
+	}
+	lits := append(append([]string{}, c01Nums...), `"s"`, `"abcd"`, `"a@b.cc"`, `"x"`, "true", "null", "1000", "2000.5", "2.5")
+	verdictOf := func(p *project) (string, error) {
+		var err error
+		rec, _ := guard(func() {
+			root, berr := buildProject(p)
+			if berr != nil {
+				err = berr
+				return
+			}
+			err = root.Check()
+		})
+		if rec != nil {
+			return "panic", fmt.Errorf("%v", rec)
+		}
+		if err != nil {
+			return "reject", err
+		}
+		return "accept", nil
+	}
+	for ai, a := range alts {
+		for bi, b := range alts {
+			if ai == bi {
+				continue
+			}
+			*idx++
+			if !w.Mine(*idx) {
+				continue
+			}
+			for _, l := range lits {
+				for _, shape := range []string{"%s", "{\n\t\"k\": %s\n}"} {
+					w.S.Evaluations++
+					w.S.Traces += 2
+					w.S.Transitions += 2
+					inline := &project{Root: fmt.Sprintf(shape, l+" // {or: [{"+a.rules+"}, {"+b.rules+"}]}")}
+					named := &project{Root: fmt.Sprintf(shape, l+` // {or: ["@t", "@o"]}`), Types: map[string]string{"@t": a.witness + " // {" + a.rules + "}", "@o": b.witness + " // {" + b.rules + "}"}}
+					vi, ei := verdictOf(inline)
+					vn, en := verdictOf(named)
+					w.S.Nontrivial++
+					w.Class("inline-vs-named:" + vi)
+					if vi != vn {
+						wit, _ := stdjson.Marshal(c01Wit{Pos: "inline-vs-named", P: inline, Exp: vn})
+						w.Violate(core.Violation{Clause: "alternative-spelling-independent", Entry: "inline-vs-named", Input: inline.describe(), Witness: wit,
+							Detail: fmt.Sprintf("inline rule-sets: %s (%s); the same alternatives as named types (%s): %s (%s)", vi, errStr(ei), named.describe(), vn, errStr(en)),
+							Sig:    map[string]string{"family": "inline-vs-named", "alt": a.rules, "lit": litKind(l)}})
+					}
+				}
+			}
+		}
+	}
+}
+
 func init() {
 	Register(&Prop{
 		ID:        "C01",
 		Technique: "bounded exhaustive enumeration of schema projects (typed value x rule template x boundary values x 8 positions), each judged by a three-valued reference semantics of the rules written from the property statement",
-		Rule:      "typed values: min/max/both x exclusivity x 11 (thorough 21) boundary numbers squared; precision x fraction digits; minLength/maxLength/ranges/regex x 7 strings; 5 string formats x strings whose verdict follows from the defining RFC (URN/braced/bare-hex UUIDs and other disputed spellings are crossed without a claim); empty and one-point min/max ranges; explicit types x 7 literals x nullable; const; enum singletons and pairs over 11 scalars; arrays x minItems/maxItems 0..4; each typed value in the positions root, property, item, @t shortcut, type:\"@t\", or:[\"@t\",\"@u\"], or:[{rule set},{type:boolean}], type of a type (thorough: also one level further inside a registered type - property of a type, item of a type, type rule / or list / or rule-set inside a type - and every value rule combined with its explicit type written first or last); non-trivial = projects with a reference verdict",
+		Rule:      "typed values: min/max/both x exclusivity x 11 (thorough 21) boundary numbers squared; precision x fraction digits; minLength/maxLength/ranges/regex x 7 strings; 5 string formats x strings whose verdict follows from the defining RFC (URN/braced/bare-hex UUIDs and other disputed spellings are crossed without a claim); empty and one-point min/max ranges; explicit types x 7 literals x nullable; const; enum singletons and pairs over 11 scalars; arrays x minItems/maxItems 0..4; each typed value in the positions root, property, item, @t shortcut, type:\"@t\", or:[\"@t\",\"@u\"], or:[{rule set},{type:boolean}], type of a type (thorough: also one level further inside a registered type - property of a type, item of a type, type rule / or list / or rule-set inside a type - and every value rule combined with its explicit type written first or last); every ordered pair of 14 typed alternatives x 30 literals: the verdict with the alternatives written inline equals the verdict with the same alternatives registered as named types; non-trivial = projects with a reference verdict",
 		Bounds: func(tier string) map[string]any {
 			return map[string]any{"positions": c01Positions, "thorough_positions": c01DeepPositions, "boundary_numbers": map[string]int{"quick": len(c01Nums), "thorough": len(c01Nums) + 10}[tier]}
 		},
@@ -788,6 +875,7 @@ func init() {
 				}
 			})
 			c01Arrays(w, &i)
+			c01InlineVsNamed(w, &i)
 			if w.Shard == 0 {
 				w.S.States += i
 				w.Count("typed_values", i)
